@@ -198,6 +198,12 @@ class Env:
     def set_result(self, v: Any) -> None:
         object.__setattr__(self, "result", self.wrap(v))
 
+    @property
+    def yields(self) -> list:
+        """what the generator has yielded on this path: values, and ("$...", ...) markers for opaque runs of yields"""
+        return [v if (isinstance(v, tuple) and v and isinstance(v[0], str) and v[0].startswith("$")) else self.wrap(v)
+                for v in self.st.out]
+
     def __setattr__(self, name: str, value: Any) -> None:
         if name == "st":
             object.__setattr__(self, "st", value)
